@@ -737,10 +737,33 @@ func runC05Upd(c *Ctx) {
 	for _, field := range scopeFields {
 		m := pairs[field]
 		construct := "(*RuleExpression).checkSemanticsOfExprNode|" + field + " -> " + m
-		calls := findCalls(fn, "(*ExprSemanticsChecker)."+m)
+		// the calls in the function itself, and those in a helper on the same receiver that it calls (the construction of
+		// the checker split off into its own method): the helper's call site is then what has to precede Check
+		type updCall struct {
+			call   ssa.CallInstruction
+			anchor ssa.Instruction
+		}
+		var calls []updCall
+		for _, call := range findCalls(fn, "(*ExprSemanticsChecker)."+m) {
+			calls = append(calls, updCall{call, call})
+		}
+		eachInstr(fn, func(_ *ssa.BasicBlock, _ int, in ssa.Instruction) {
+			hc, isCall := in.(*ssa.Call)
+			if !isCall {
+				return
+			}
+			h := staticCallee(&hc.Call)
+			if h == nil || !inModule(h) || h.Blocks == nil || len(hc.Call.Args) == 0 || hc.Call.Args[0] != ssa.Value(fn.Params[0]) {
+				return
+			}
+			for _, call := range findCalls(h, "(*ExprSemanticsChecker)."+m) {
+				calls = append(calls, updCall{call, hc})
+			}
+		})
 		ok := false
 		why := "the method is never called"
-		for _, call := range calls {
+		for _, uc := range calls {
+			call := uc.call
 			arg := call.Common().Args[1]
 			f, _ := fieldLoad(arg)
 			if f != "RuleExpression."+field {
@@ -763,11 +786,12 @@ func runC05Upd(c *Ctx) {
 				why = "not guarded by exactly `" + field + " != nil`"
 				continue
 			}
-			if !dom(call, checkCall) && !reachableBlocks(call.Block().Succs, nil)[checkCall.Block()] {
+			anchorCall, _ := uc.anchor.(ssa.CallInstruction)
+			if anchorCall == nil || (!dom(anchorCall, checkCall) && !reachableBlocks(uc.anchor.Block().Succs, nil)[checkCall.Block()]) {
 				why = "called after the expression was checked"
 				continue
 			}
-			if instrReachableAfter(checkCall, call) {
+			if instrReachableAfter(checkCall, uc.anchor) {
 				why = "called after the expression was checked"
 				continue
 			}
